@@ -746,3 +746,33 @@ package cache
 //@   ensures [C06.get.bgctx] bg ==> dyntype(res(ctxSync, 1, 0), detachedContext) && payload(res(ctxSync, 1, 0), detachedContext).parent == ctx
 //@   ensures [C18.get.counts] f.stat != nil ==> metric(MetricBuild) == old(metric(MetricBuild)) + real(calls(doBuild))
 //@       && metric(MetricRefreshed) == old(metric(MetricRefreshed)) + real(calls(refreshStale))
+
+// ---------------------------------------------------------------------------------------------------
+// invalidator.go: label index (C15), guarded by InvalidationIndex.mu (C16)
+// ---------------------------------------------------------------------------------------------------
+
+//@ type InvalidationIndex
+//@   props C15 C16
+//@   guardedby labeledKeysByName mu
+//@   guardedby deleters mu
+
+// cutKeys removes the key lists of the given labels from the index and returns them, label by label.
+// A label may be given more than once (the property quantifies over "all label argument orders ... repeated").
+
+//@ def inLabels(labels, l) := exists j int :: 0 <= j && j < len(labels) && labels[j] == l
+
+//@ func (*InvalidationIndex).cutKeys
+//@   props C15
+//@   requires labeledKeys != nil
+//@   ensures [C15.cut.result] forall l string :: inLabels(labels, l) ==> has(result, l) && result[l] == old(labeledKeys[l])
+//@   ensures [C15.cut.only] forall l string :: has(result, l) ==> inLabels(labels, l)
+//@   ensures [C15.cut.removed] forall l string :: has(labeledKeys, l) == (old(has(labeledKeys, l)) && !inLabels(labels, l))
+//@   ensures [C15.cut.others] forall l string :: has(labeledKeys, l) ==> labeledKeys[l] == old(labeledKeys[l])
+//@   loop 1 invariant [C15.cut.inv.bounds] -1 <= rangeindex && rangeindex < len(labels) && res != nil
+//@   loop 1 invariant [C15.cut.inv.result] forall l string :: (exists j int :: 0 <= j && j <= rangeindex && labels[j] == l) ==>
+//@       has(res, l) && res[l] == old(labeledKeys[l])
+//@   loop 1 invariant [C15.cut.inv.only] forall l string :: has(res, l) ==> (exists j int :: 0 <= j && j <= rangeindex && labels[j] == l)
+//@   loop 1 invariant [C15.cut.inv.removed] forall l string :: has(labeledKeys, l) ==
+//@       (old(has(labeledKeys, l)) && !(exists j int :: 0 <= j && j <= rangeindex && labels[j] == l))
+//@   loop 1 invariant [C15.cut.inv.others] forall l string :: has(labeledKeys, l) ==> labeledKeys[l] == old(labeledKeys[l])
+//@   replay cutkeys
